@@ -8,6 +8,7 @@ package rules
 import (
 	"fmt"
 	"go/ast"
+	"go/constant"
 	"go/token"
 	"go/types"
 	"sort"
@@ -157,7 +158,7 @@ func runMISSERR(c *Ctx) {
 			c.Undecided(fn, c.P.Pos(fn.Pos()), "signature", "Load does not have the shape (recv, ctx, name) ([]byte, error)")
 			continue
 		}
-		missErrFunc(c, rootFrame(c.P, fn), map[*ssa.Function]bool{})
+		missErrFunc(c, rootFrame(c.P, fn), map[*ssa.Function]bool{}, false)
 	}
 }
 
@@ -172,7 +173,7 @@ type fetch struct {
 // missErrFunc checks the success returns of the function of frame fr (Load,
 // or a helper whose first result is the data Load returns) and, recursively,
 // the repository helpers the returned data is fetched through.
-func missErrFunc(c *Ctx, fr *frame, done map[*ssa.Function]bool) {
+func missErrFunc(c *Ctx, fr *frame, done map[*ssa.Function]bool, whole bool) {
 	P := c.P
 	fn := fr.fn
 	if done[fn] {
@@ -184,13 +185,17 @@ func missErrFunc(c *Ctx, fr *frame, done map[*ssa.Function]bool) {
 		return
 	}
 	errIdx := fn.Signature.Results().Len() - 1
-	var helpers []*frame
+	var helpers, dataHelpers []*frame
 	var allFetch []fetch // the reads/lookups whose data some success return returns
 	type verdict struct {
 		bad  []string
 		und  []string
 		ok   []string
 		path string
+		// READWHOLE: is the returned data the complete content?
+		partial    []string
+		partialUnd []string
+		wholeOK    []string
 	}
 	per := map[*ssa.Return]*verdict{}
 	var order []*ssa.Return
@@ -206,7 +211,7 @@ func missErrFunc(c *Ctx, fr *frame, done map[*ssa.Function]bool) {
 			order = append(order, r)
 		}
 		var fs []fetch
-		var und, altered []string
+		var und, altered, partial, partialUnd, wholeOK []string
 		seen := map[ssa.Value]bool{}
 		var slice func(x ssa.Value, d int, below bool)
 		slice = func(x ssa.Value, d int, below bool) {
@@ -219,6 +224,12 @@ func missErrFunc(c *Ctx, fr *frame, done map[*ssa.Function]bool) {
 			case *ssa.Extract:
 				switch t := y.Tuple.(type) {
 				case *ssa.Call:
+					if !below {
+						b, u, ok := wholeProducer(c, t, fr)
+						partial = append(partial, b...)
+						partialUnd = append(partialUnd, u...)
+						wholeOK = append(wholeOK, ok...)
+					}
 					// comma-ok helper: `func (s *T) get(k) ([]byte, bool) { v, ok := s.m[k]; return v, ok }`
 					if k := fr.child(t); k != nil {
 						if sr := soleReturn(k.fn); sr != nil && y.Index < len(sr.Results) {
@@ -245,6 +256,9 @@ func missErrFunc(c *Ctx, fr *frame, done map[*ssa.Function]bool) {
 						fs = append(fs, fetch{ins: t, what: callName(t), good: e})
 						if k := fr.child(t); k != nil {
 							helpers = append(helpers, k) // the helper's own success returns are checked too
+							if !below {
+								dataHelpers = append(dataHelpers, k) // … and this one produces the returned bytes themselves
+							}
 						} else if h := ir.Callee(t.Call); h != nil && h.Blocks != nil && isOwn(P, h) {
 							und = append(und, "data is fetched through helper "+h.Name()+", nested deeper than the rule follows")
 						}
@@ -258,6 +272,9 @@ func missErrFunc(c *Ctx, fr *frame, done map[*ssa.Function]bool) {
 				case *ssa.Lookup:
 					if !t.CommaOk {
 						return
+					}
+					if !below {
+						wholeOK = append(wholeOK, "the map element itself")
 					}
 					f := fetch{ins: t, what: "map lookup", isOK: true}
 					if ex := extractOf(t, 1); ex != nil {
@@ -287,6 +304,19 @@ func missErrFunc(c *Ctx, fr *frame, done map[*ssa.Function]bool) {
 					break
 				}
 				if !below {
+					// a local bytes.Buffer filled by one copy: the copy is the read
+					if fill, kind := bufferFill(y); fill != nil {
+						e, _ := errorValue(fill)
+						fs = append(fs, fetch{ins: fill, what: callName(fill), good: e})
+						b, u, ok := wholeCopy(c, fill, kind, fr)
+						partial = append(partial, b...)
+						partialUnd = append(partialUnd, u...)
+						wholeOK = append(wholeOK, ok...)
+						for _, a := range fill.Call.Args {
+							slice(a, d+1, true)
+						}
+						break
+					}
 					// between the read and the return the bytes must stay exactly the bytes read
 					und = append(und, "the returned data passes through "+callName(y)+", which may change the bytes read")
 				}
@@ -324,11 +354,13 @@ func missErrFunc(c *Ctx, fr *frame, done map[*ssa.Function]bool) {
 			}
 		}
 		slice(r.Results[0], 0, false)
+		v.partial = append(append(v.partial, partial...), altered...)
+		v.partialUnd = append(v.partialUnd, partialUnd...)
+		v.wholeOK = append(v.wholeOK, wholeOK...)
 		if len(und) > 0 {
 			v.und = append(v.und, und...)
 			return
 		}
-		v.bad = append(v.bad, altered...)
 		for _, f := range fs {
 			if f.ins != nil && f.good != nil && f.miss == "" {
 				known := false
@@ -379,10 +411,36 @@ func missErrFunc(c *Ctx, fr *frame, done map[*ssa.Function]bool) {
 		return
 	}
 	defer func() {
-		for _, k := range helpers {
-			missErrFunc(c, k, done)
+		hs := helpers
+		if whole {
+			hs = dataHelpers // completeness concerns the producer of the bytes, not the provenance of its reader
+		}
+		for _, k := range hs {
+			missErrFunc(c, k, done, whole)
 		}
 	}()
+	if whole {
+		for i, r := range order {
+			v := per[r]
+			what := fmt.Sprintf("content returned by success return #%d of %s", i+1, ir.FuncName(fn))
+			switch {
+			case len(v.partial) > 0:
+				c.Violation(fn, P.InstrPos(r), "Load does not return the complete content",
+					ir.FuncName(fn)+" can return, with a nil error, less than (or something other than) the complete stored bytes: "+strings.Join(uniq(v.partial), "; "), v.path)
+			case len(v.partialUnd) > 0 || len(v.und) > 0:
+				c.Undecided(fn, P.InstrPos(r), "completeness of the returned content", "cannot establish that the returned bytes are the complete content: "+strings.Join(uniq(append(v.partialUnd, v.und...)), "; "), v.path)
+			case len(v.wholeOK) == 0:
+				if len(v.bad) > 0 {
+					c.OK(P.InstrPos(r), what, "no data producer on this return (MISSERR's finding)", true)
+				} else {
+					c.Undecided(fn, P.InstrPos(r), "completeness of the returned content", "no recognised producer of the returned bytes", v.path)
+				}
+			default:
+				c.OK(P.InstrPos(r), what, strings.Join(uniq(v.wholeOK), "; "), false)
+			}
+		}
+		return
+	}
 	missErrReject(c, fn, errIdx, allFetch)
 	for i, r := range order {
 		v := per[r]
@@ -714,6 +772,7 @@ var prefixInjective = map[string]bool{
 	"path/filepath.Clean": true, "path/filepath.ToSlash": true, "path/filepath.FromSlash": true, "path.Clean": true,
 	"net/url.PathEscape": true, "net/url.QueryEscape": true, "strconv.Quote": true, "encoding/hex.EncodeToString": true,
 	"path/filepath.Abs": true, "path/filepath.Join": true, "path.Join": true,
+	"strconv.Itoa": true, "strconv.FormatUint": true, "strconv.FormatInt": true,
 }
 
 var prefixLossy = map[string]bool{
@@ -731,8 +790,9 @@ type prefixCheck struct {
 	bad   []string
 	und   []string
 	depth int
-	srcs  int // identity sources reached: fields, the receiver's address, a wrapped store's prefix
+	srcs  int // identity sources reached: configuration parameters, a process-unique id, a wrapped store's prefix
 	notes []string
+	addr  []string // the identity is a memory address
 }
 
 // sprintfVerbsOK: only verbs that print their operand completely.
@@ -766,7 +826,17 @@ func (pc *prefixCheck) value(v ssa.Value, ri *recvInfo, d int) {
 	case *ssa.Const:
 		return
 	case *ssa.Parameter:
-		pc.srcs++ // the receiver (its address, %p) in a method; a configuration parameter in a constructor
+		if ri != nil && x == ri.param {
+			// the receiver itself: only its address can flow into a string
+			if _, isPtr := x.Type().Underlying().(*types.Pointer); isPtr {
+				pc.addr = append(pc.addr, "the address of the receiver")
+				return
+			}
+		}
+		pc.srcs++ // a configuration parameter of a constructor
+		return
+	case *ssa.Global:
+		pc.addr = append(pc.addr, "the address of package-level variable "+x.Name())
 		return
 	case *ssa.BinOp:
 		if x.Op == token.ADD && isStringType(x.Type()) {
@@ -774,7 +844,7 @@ func (pc *prefixCheck) value(v ssa.Value, ri *recvInfo, d int) {
 			pc.value(x.Y, ri, d+1)
 			return
 		}
-		pc.bad = append(pc.bad, "operator "+x.Op.String())
+		pc.bad = append(pc.bad, "operator "+x.Op.String()+" (different operands give the same result, or the operands are not themselves unique)")
 	case *ssa.UnOp:
 		if x.Op != token.MUL {
 			pc.und = append(pc.und, "operator "+x.Op.String())
@@ -785,6 +855,10 @@ func (pc *prefixCheck) value(v ssa.Value, ri *recvInfo, d int) {
 				pc.field(f)
 				return
 			}
+		}
+		if g, ok := x.X.(*ssa.Global); ok {
+			pc.bad = append(pc.bad, "a plain (non-atomic) read of package-level variable "+g.Name()+": concurrent constructors can obtain the same value")
+			return
 		}
 		pc.und = append(pc.und, "a value loaded from "+ir.Sym(x.X))
 	case *ssa.Field:
@@ -806,8 +880,31 @@ func (pc *prefixCheck) value(v ssa.Value, ri *recvInfo, d int) {
 	case *ssa.Index, *ssa.Lookup, *ssa.IndexAddr:
 		pc.bad = append(pc.bad, "an index expression (a single element)")
 	case *ssa.Convert:
+		if narrowing(x.X.Type(), x.Type()) {
+			pc.bad = append(pc.bad, "a narrowing conversion to "+x.Type().String())
+			return
+		}
+		if bt, ok := x.X.Type().Underlying().(*types.Basic); ok && bt.Kind() == types.UnsafePointer {
+			pc.addr = append(pc.addr, "a pointer converted to a number")
+			return
+		}
 		pc.value(x.X, ri, d+1)
 	case *ssa.Call:
+		// a process-unique number: sync/atomic Add on a package-level counter nothing else writes
+		if g, why, isAdd := atomicCounterAdd(pc.c, x); isAdd {
+			if why != "" {
+				pc.bad = append(pc.bad, why)
+			} else {
+				pc.srcs++
+				pc.notes = append(pc.notes, "a process-unique number taken from counter "+g.Name()+" by sync/atomic Add (no other function writes the counter)")
+			}
+			return
+		}
+		switch staticID(x) {
+		case "(reflect.Value).Pointer", "(reflect.Value).UnsafePointer", "(reflect.Value).UnsafeAddr":
+			pc.addr = append(pc.addr, callName(x))
+			return
+		}
 		// a wrapper delegating to the wrapped store: same container, same prefix
 		if x.Call.IsInvoke() && x.Call.Method.Name() == "NodeURLPrefix" && ri != nil {
 			if f, ok := ri.fieldOf(x.Call.Value); ok {
@@ -832,6 +929,9 @@ func (pc *prefixCheck) value(v ssa.Value, ri *recvInfo, d int) {
 				if ok, why := sprintfVerbsOK(format); !ok {
 					pc.bad = append(pc.bad, "fmt.Sprintf with "+why)
 					return
+				}
+				if strings.Contains(strings.ReplaceAll(format, "%%", ""), "%p") {
+					pc.addr = append(pc.addr, "verb %p (an address)")
 				}
 				rest = args[1:]
 			}
@@ -860,7 +960,7 @@ func (pc *prefixCheck) value(v ssa.Value, ri *recvInfo, d int) {
 			pc.und = append(pc.und, "a call of "+callName(x)+", of which the rule does not know whether it is injective")
 		}
 	case *ssa.Alloc:
-		// the receiver itself (identity through %p)
+		pc.addr = append(pc.addr, "the address of a local value")
 	default:
 		pc.und = append(pc.und, fmt.Sprintf("%T", v))
 	}
@@ -870,15 +970,105 @@ func (pc *prefixCheck) value(v ssa.Value, ri *recvInfo, d int) {
 // Load/Store is complete by construction (CTORVERBATIM); a derived field must
 // itself be assembled injectively by every function that stores it.
 func (pc *prefixCheck) field(f string) {
-	pc.srcs++
 	pc.depth++
 	defer func() { pc.depth-- }()
 	if pc.depth > 3 {
 		return
 	}
-	for _, s := range fieldStoresOf(pc.c, pc.b, f) {
+	stores := fieldStoresOf(pc.c, pc.b, f)
+	if len(stores) == 0 {
+		pc.srcs++ // never assigned in the package: set by the user of the struct
+		return
+	}
+	for _, s := range fieldStoresInMethods(pc.c, pc.b, f) {
+		pc.bad = append(pc.bad, "field "+f+", which "+ir.FuncName(s.Parent())+" reassigns after construction (the identity of a store must not change or be copied)")
+	}
+	for _, s := range stores {
 		pc.value(s.Val, newRecvInfo(s.Parent()), 0)
 	}
+}
+
+func narrowing(from, to types.Type) bool {
+	size := func(t types.Type) int {
+		b, ok := t.Underlying().(*types.Basic)
+		if !ok {
+			return 0
+		}
+		switch b.Kind() {
+		case types.Int8, types.Uint8:
+			return 1
+		case types.Int16, types.Uint16:
+			return 2
+		case types.Int32, types.Uint32:
+			return 4
+		case types.Int64, types.Uint64, types.Int, types.Uint, types.Uintptr:
+			return 8
+		}
+		return 0
+	}
+	a, b := size(from), size(to)
+	return a > 0 && b > 0 && b < a
+}
+
+// atomicCounterAdd recognises sync/atomic Add on a package-level counter
+// (atomic.AddUint64(&g, k) or g.Add(k) for the typed atomics) with a positive
+// constant increment. why is non-empty when the counter does not yield
+// process-unique numbers: some function writes it other than by atomic Add.
+func atomicCounterAdd(c *Ctx, call *ssa.Call) (g *ssa.Global, why string, ok bool) {
+	id := staticID(call)
+	isAdd := false
+	switch id {
+	case "sync/atomic.AddUint64", "sync/atomic.AddInt64", "sync/atomic.AddUint32", "sync/atomic.AddInt32", "sync/atomic.AddUintptr",
+		"(*sync/atomic.Uint64).Add", "(*sync/atomic.Int64).Add", "(*sync/atomic.Uint32).Add", "(*sync/atomic.Int32).Add", "(*sync/atomic.Uintptr).Add":
+		isAdd = true
+	}
+	if !isAdd || len(call.Call.Args) != 2 {
+		return nil, "", false
+	}
+	g, isG := call.Call.Args[0].(*ssa.Global)
+	if !isG {
+		return nil, "sync/atomic Add on a counter that is not a package-level variable (" + ir.Sym(call.Call.Args[0]) + ")", true
+	}
+	k, isC := call.Call.Args[1].(*ssa.Const)
+	if !isC || k.Value == nil || constant.Sign(k.Value) <= 0 {
+		return g, "the increment of counter " + g.Name() + " is not a positive constant", true
+	}
+	// every other use of the counter is an atomic Add or an atomic Load
+	for _, fn := range c.P.Funcs {
+		for _, b := range fn.Blocks {
+			for _, ins := range b.Instrs {
+				uses := false
+				for _, op := range ins.Operands(nil) {
+					if op != nil && *op == ssa.Value(g) {
+						uses = true
+					}
+				}
+				if !uses {
+					continue
+				}
+				okUse := false
+				if ci, isCall := ins.(ssa.CallInstruction); isCall && len(ci.Common().Args) > 0 && ci.Common().Args[0] == ssa.Value(g) {
+					switch cid := staticID(ci); {
+					case strings.HasPrefix(cid, "sync/atomic.Add"), strings.HasPrefix(cid, "sync/atomic.Load"),
+						strings.HasPrefix(cid, "(*sync/atomic.") && (strings.HasSuffix(cid, ").Add") || strings.HasSuffix(cid, ").Load")):
+						okUse = true
+						if strings.Contains(cid, "Add") {
+							if kk, isK := ci.Common().Args[1].(*ssa.Const); !isK || kk.Value == nil || constant.Sign(kk.Value) <= 0 {
+								okUse = false
+							}
+						}
+					}
+				}
+				if u, isLoad := ins.(*ssa.UnOp); isLoad && u.Op == token.MUL && u.X == ssa.Value(g) {
+					okUse = true // a plain read does not change the counter
+				}
+				if !okUse {
+					return g, fmt.Sprintf("counter %s is also written or handed out by %s (%s): its values are not unique", g.Name(), ir.FuncName(fn), c.P.InstrPos(ins)), true
+				}
+			}
+		}
+	}
+	return g, "", true
 }
 
 func runPREFIXIDENT(c *Ctx) {
@@ -902,6 +1092,9 @@ func runPREFIXIDENT(c *Ctx) {
 			pc := &prefixCheck{c: c, b: b}
 			pc.value(r.Results[0], ri, 0)
 			switch {
+			case len(pc.addr) > 0:
+				c.Violation(pfx, P.InstrPos(r), "prefix derived from a memory address",
+					fmt.Sprintf("NodeURLPrefix of %s identifies the store by %s: an address is reused once the store has been collected, while a NodeCache shared with later stores lives on — the new store at the same address inherits the old one's cache entries and MakeRoot skips writing nodes it never stored", b.String(), strings.Join(uniq(pc.addr), "; ")))
 			case len(pc.bad) > 0:
 				c.Violation(pfx, P.InstrPos(r), "prefix not injective in the store location",
 					fmt.Sprintf("NodeURLPrefix of %s passes the store's location through %s: two stores at different locations can report the same prefix, and with a shared NodeCache a node flushed to one is then never written to the other", b.String(), strings.Join(uniq(pc.bad), "; ")))
@@ -913,7 +1106,7 @@ func runPREFIXIDENT(c *Ctx) {
 			case len(pc.notes) > 0:
 				c.OK(P.InstrPos(r), "NodeURLPrefix of "+b.String(), strings.Join(uniq(pc.notes), "; "), false)
 			default:
-				c.OK(P.InstrPos(r), "NodeURLPrefix of "+b.String(), "assembled from complete fields / the receiver's address by concatenation and full-width verbs only", false)
+				c.OK(P.InstrPos(r), "NodeURLPrefix of "+b.String(), "assembled from complete configuration fields by concatenation and full-width verbs only", false)
 			}
 		}
 	}
@@ -988,4 +1181,221 @@ func runWRAPVERBATIM(c *Ctx) {
 			})
 		}
 	}
+}
+
+// ===========================================================================
+// READWHOLE
+
+func init() {
+	Register(&Rule{
+		ID: "READWHOLE", Props: []string{"C18", "C17"}, Min: 3,
+		Doc: "the bytes a backend Load returns with a nil error are the complete stored content: the result of os.ReadFile, or of io.ReadAll " +
+			"applied directly to the opened file / the response body (no io.LimitReader, SectionReader, fixed-size Read, line reader or CopyN in " +
+			"between), or the map element itself, and never a reslice of it; the in-memory Store keeps exactly its bytes parameter under its name parameter.",
+		Run: runREADWHOLE,
+	})
+}
+
+func runREADWHOLE(c *Ctx) {
+	P := c.P
+	for _, b := range backendImpls(c, backendPkgs...) {
+		fn := b.load
+		if len(fn.Params) < 3 || ir.ErrorResultIndex(fn.Signature) != 1 {
+			c.Undecided(fn, P.Pos(fn.Pos()), "signature", "Load does not have the shape (recv, ctx, name) ([]byte, error)")
+			continue
+		}
+		missErrFunc(c, rootFrame(P, fn), map[*ssa.Function]bool{}, true)
+		// a store that keeps nodes in a map keeps the whole slice under the name
+		if len(b.store.Params) < 4 {
+			continue
+		}
+		frameInstrs(rootFrame(P, b.store), func(ins ssa.Instruction, fr *frame) {
+			mu, ok := ins.(*ssa.MapUpdate)
+			if !ok {
+				return
+			}
+			if _, isBytes := mu.Value.Type().Underlying().(*types.Slice); !isBytes {
+				return
+			}
+			what := "map update in " + ir.FuncName(fr.fn)
+			switch {
+			case !isRootParam(mu.Key, fr, 2):
+				c.Violation(fr.fn, P.InstrPos(mu), "stored under something other than the name", "Store keeps the node under "+descFval(expand(mu.Key, fr))+" instead of its name parameter")
+			case !isRootParam(mu.Value, fr, 3):
+				c.Violation(fr.fn, P.InstrPos(mu), "stored value is not the bytes parameter", "Store keeps "+descFval(expand(mu.Value, fr))+" instead of exactly its bytes parameter: a later Load cannot return the complete content")
+			default:
+				c.OK(P.InstrPos(mu), what, "the bytes parameter itself is kept under the name parameter", false)
+			}
+		})
+	}
+}
+
+// readers that hand on only part of their source
+var truncatingReaders = map[string]string{
+	"io.LimitReader":          "io.LimitReader (content beyond the limit is silently dropped)",
+	"io.NewSectionReader":     "io.NewSectionReader (a section of the source)",
+	"net/http.MaxBytesReader": "http.MaxBytesReader",
+}
+
+// wrappers through which io.ReadAll still sees the whole source
+var transparentReaders = map[string]bool{
+	"bufio.NewReader": true, "bufio.NewReaderSize": true, "io.NopCloser": true, "io/ioutil.NopCloser": true, "io.TeeReader": true,
+}
+
+// calls whose first result is only a piece of what their source holds
+var partialProducers = map[string]string{
+	"(*bufio.Reader).ReadLine":   "one line",
+	"(*bufio.Reader).ReadBytes":  "the bytes up to a delimiter",
+	"(*bufio.Reader).ReadSlice":  "the bytes up to a delimiter",
+	"(*bufio.Reader).ReadString": "the text up to a delimiter",
+	"(*bufio.Reader).Peek":       "a prefix",
+	"(*bufio.Scanner).Bytes":     "one token",
+	"(*bytes.Buffer).Next":       "a prefix",
+	"(*bytes.Buffer).ReadBytes":  "the bytes up to a delimiter",
+}
+
+// wholeProducer classifies the call whose first result is the returned data.
+func wholeProducer(c *Ctx, call *ssa.Call, fr *frame) (bad, und, ok []string) {
+	id := staticID(call)
+	switch id {
+	case "os.ReadFile", "io/ioutil.ReadFile":
+		return nil, nil, []string{callName(call) + " reads the whole file"}
+	case "io.ReadAll", "io/ioutil.ReadAll":
+		return wholeReader(c, call.Call.Args[0], fr, 0)
+	}
+	if what, isPartial := partialProducers[id]; isPartial {
+		return []string{callName(call) + " yields " + what + ", not the whole content"}, nil, nil
+	}
+	if call.Call.IsInvoke() && call.Call.Method.Name() == "Load" {
+		if it := persistIface(c); it != nil && types.Implements(call.Call.Value.Type(), it) {
+			return nil, nil, []string{"the data of the wrapped store's Load, returned as is"}
+		}
+	}
+	if fr.child(call) != nil {
+		return nil, nil, []string{"the data returned by helper " + callName(call) + " (checked there)"}
+	}
+	return nil, []string{"the data is produced by " + callName(call) + ", of which the rule does not know whether it yields the complete content"}, nil
+}
+
+// wholeReader: io.ReadAll(v) reads everything that was stored.
+func wholeReader(c *Ctx, v ssa.Value, fr *frame, d int) (bad, und, ok []string) {
+	if d > 6 {
+		return nil, []string{"reader nesting too deep"}, nil
+	}
+	x := expand(v, fr)
+	switch y := x.v.(type) {
+	case *ssa.Extract:
+		if call, isCall := y.Tuple.(*ssa.Call); isCall && y.Index == 0 {
+			switch staticID(call) {
+			case "os.Open", "os.OpenFile":
+				if why := fileReadElsewhere(y); why != "" {
+					return []string{why}, nil, nil
+				}
+				return nil, nil, []string{"io.ReadAll directly on the opened file"}
+			}
+		}
+	case *ssa.UnOp:
+		if y.Op == token.MUL {
+			if fa, isFA := y.X.(*ssa.FieldAddr); isFA {
+				if _, isIface := y.Type().Underlying().(*types.Interface); isIface {
+					return nil, nil, []string{"io.ReadAll directly on the " + ir.FieldName(fa.X.Type(), fa.Field) + " stream of the response"}
+				}
+			}
+		}
+	case *ssa.Call:
+		id := staticID(y)
+		if why, isTrunc := truncatingReaders[id]; isTrunc {
+			return []string{"the source is wrapped in " + why}, nil, nil
+		}
+		if transparentReaders[id] && len(y.Call.Args) > 0 {
+			return wholeReader(c, y.Call.Args[0], x.fr, d+1)
+		}
+		return nil, []string{"the source of io.ReadAll is " + descFval(x)}, nil
+	case *ssa.Alloc:
+		if pt, isP := y.Type().Underlying().(*types.Pointer); isP {
+			if n, isN := types.Unalias(pt.Elem()).(*types.Named); isN && n.Obj().Pkg() != nil && n.Obj().Pkg().Path() == "io" {
+				switch n.Obj().Name() {
+				case "LimitedReader", "SectionReader":
+					return []string{"the source is an io." + n.Obj().Name()}, nil, nil
+				}
+			}
+		}
+	}
+	return nil, []string{"the source of io.ReadAll is " + descFval(x)}, nil
+}
+
+// fileReadElsewhere: the *os.File f is also read, written or positioned by
+// another call, so ReadAll does not start at the beginning.
+func fileReadElsewhere(f ssa.Value) string {
+	if f.Referrers() == nil {
+		return ""
+	}
+	for _, r := range *f.Referrers() {
+		ci, ok := r.(ssa.CallInstruction)
+		if !ok {
+			continue
+		}
+		id := staticID(ci)
+		if !strings.HasPrefix(id, "(*os.File).") {
+			continue
+		}
+		switch strings.TrimPrefix(id, "(*os.File).") {
+		case "Close", "Stat", "Name", "Fd", "Chmod", "SetDeadline", "SetReadDeadline", "Sync":
+		default:
+			return "the file is also accessed by " + callName(ci) + ", so io.ReadAll need not see the content from its beginning"
+		}
+	}
+	return ""
+}
+
+// bufferFill: bytesCall is buf.Bytes() of a local bytes.Buffer that is filled
+// by exactly one copy; it returns that call and its kind.
+func bufferFill(bytesCall *ssa.Call) (*ssa.Call, string) {
+	if staticID(bytesCall) != "(*bytes.Buffer).Bytes" || len(bytesCall.Call.Args) != 1 {
+		return nil, ""
+	}
+	buf, ok := bytesCall.Call.Args[0].(*ssa.Alloc)
+	if !ok || buf.Referrers() == nil {
+		return nil, ""
+	}
+	var fill *ssa.Call
+	kind := ""
+	uses := func(call *ssa.Call) bool {
+		for _, a := range call.Call.Args {
+			if ir.Strip(a) == ssa.Value(buf) {
+				return true
+			}
+		}
+		return false
+	}
+	for _, b := range buf.Parent().Blocks {
+		for _, ins := range b.Instrs {
+			call, ok := ins.(*ssa.Call)
+			if !ok || call == bytesCall || !uses(call) {
+				continue
+			}
+			switch id := staticID(call); id {
+			case "io.Copy", "io.CopyBuffer", "io.CopyN", "(*bytes.Buffer).ReadFrom":
+				if fill != nil {
+					return nil, ""
+				}
+				fill, kind = call, id
+			case "(*bytes.Buffer).Len", "(*bytes.Buffer).Grow":
+			default:
+				return nil, ""
+			}
+		}
+	}
+	return fill, kind
+}
+
+// wholeCopy classifies the copy that fills the returned buffer.
+func wholeCopy(c *Ctx, fill *ssa.Call, kind string, fr *frame) (bad, und, ok []string) {
+	switch kind {
+	case "io.CopyN":
+		return []string{"io.CopyN copies at most a fixed number of bytes"}, nil, nil
+	case "io.Copy", "io.CopyBuffer", "(*bytes.Buffer).ReadFrom":
+		return wholeReader(c, fill.Call.Args[1], fr, 0)
+	}
+	return nil, []string{"the buffer is filled by " + callName(fill)}, nil
 }
